@@ -28,6 +28,7 @@ type MemCore struct {
 	enc zapcore.Encoder
 	r   *ring.Ring
 	mu  *sync.RWMutex
+	top *MemCore // the core this one was derived from by With (nil for the root core): it owns the ring cursor and its lock
 }
 
 /*MemLogger - a struct for ring buffered inmemory logger */
@@ -122,6 +123,11 @@ func (mc *MemCore) Check(ent zapcore.Entry, ce *zapcore.CheckedEntry) *zapcore.C
 
 /*Write - implement interface */
 func (mc *MemCore) Write(ent zapcore.Entry, fields []zapcore.Field) error {
+	// all cores derived from one root share the root's ring cursor, so that the
+	// buffer holds the most recent entries of all of them
+	if mc.top != nil {
+		mc = mc.top
+	}
 	mc.mu.Lock()
 	defer mc.mu.Unlock()
 
@@ -148,10 +154,15 @@ func (mc *MemCore) Sync() error {
 func (mc *MemCore) clone() *MemCore {
 	mc.mu.RLock()
 	defer mc.mu.RUnlock()
+	top := mc
+	if mc.top != nil {
+		top = mc.top
+	}
 	return &MemCore{
 		LevelEnabler: mc.LevelEnabler,
 		enc:          mc.enc.Clone(),
 		r:            mc.r,
 		mu:           &sync.RWMutex{},
+		top:          top,
 	}
 }
